@@ -26,7 +26,7 @@
      C15_layout_free_texts   : two accepted texts are prints of trees c1, c2 with erase_file ci = di; if the trees denote
                                the same document (same tokens modulo layout) the parsed documents are equal. *)
 From PVIdl Require Import Comb Ast Parser Print Proofs.Total Proofs.RoundTok Proofs.RoundPath Proofs.RoundAnn Proofs.RoundTy
-  Proofs.RoundKit Proofs.RoundNum Proofs.RoundConst Proofs.RoundDecl Proofs.RoundItem Proofs.RoundField Proofs.RoundStruct
+  Proofs.RoundKit Proofs.Lex Proofs.RoundNum Proofs.RoundConst Proofs.RoundDecl Proofs.RoundItem Proofs.RoundField Proofs.RoundStruct
   Proofs.RoundFn Proofs.RoundFile Proofs.InvTok Proofs.InvTy Proofs.InvConst Proofs.InvDecl Proofs.InvItems Proofs.InvFile.
 
 (* identifiers, followed by anything that does not continue a word *)
@@ -243,11 +243,23 @@ Theorem C15_keyword_prefix_document :
 Proof. exact keyword_prefix_roundtrip. Qed.
 Print Assumptions C15_keyword_prefix_document.
 
-(* ---------- THE CONVERSE: every accepted text is the print of a concrete syntax tree ---------- *)
+(* ---------- THE CONVERSE: every accepted text is the print of a WELL-FORMED concrete syntax tree ----------
+   No exclusion is left: list / set / map as type names, result types that begin with the words oneway / throws, constant
+   values / enum values / constant items that touch (5x, true.5, A=5B, const i8 c=5struct S{}) are well-formed layouts
+   (the longest-match rule of the number and word syntax is part of wf: Print.cont_ok), and the readings that would need
+   a non-ASCII letter directly after a keyword (i32 / true / required as a path) are shown not to occur in an accepted
+   text, because everything that can follow begins with an ASCII byte. *)
 Theorem C15_accepted_is_printed : forall s doc, parse_file s = POk [] doc ->
-  exists c : cfile, pr_file c [] = s /\ erase_file c = doc /\ (outside c = false -> wf_file c = true).
+  exists c : cfile, pr_file c [] = s /\ erase_file c = doc /\ wf_file c = true.
 Proof. exact accepted_is_printed. Qed.
 Print Assumptions C15_accepted_is_printed.
+
+(* both directions in one statement: the parser accepts exactly the prints of the well-formed trees, and returns the
+   document the tree denotes.  (<-) is C15_roundtrip, (->) is C15_accepted_is_printed. *)
+Theorem C15_accepted_iff_printed : forall s doc,
+  parse_file s = POk [] doc <-> exists c : cfile, wf_file c = true /\ pr_file c [] = s /\ erase_file c = doc.
+Proof. exact accepted_iff_printed. Qed.
+Print Assumptions C15_accepted_iff_printed.
 
 Theorem C15_layout_free_texts : forall s1 s2 d1 d2, parse_file s1 = POk [] d1 -> parse_file s2 = POk [] d2 ->
   exists c1 c2 : cfile, pr_file c1 [] = s1 /\ pr_file c2 [] = s2 /\ erase_file c1 = d1 /\ erase_file c2 = d2 /\
@@ -268,7 +280,7 @@ Proof. exact const_inv. Qed.
 Print Assumptions C15_accepted_is_printed_const_value.
 
 Theorem C15_accepted_is_printed_field : forall lf df i r f, p_field lf df i = POk r f ->
-  exists c, i = pr_field c r /\ erase_field c = f /\ (r <> [] -> ok_field c = true -> wf_field c = true) /\ noblank r /\
+  exists c, i = pr_field c r /\ erase_field c = f /\ (r <> [] -> hd_ascii r = true -> wf_field c = true) /\ noblank r /\
             (cf_sep c = SepNone -> nosep r = true) /\ dhead (pr_field c r) /\
             (field_ends_word c = true -> hd_is is_digit r = false).
 Proof. exact field_inv. Qed.
